@@ -734,6 +734,9 @@ def guided_paths(kernel, exr, argset, env, setup_fn, opts, mode, W, res):
     exr.record_trace = True
     # phase 1 (optional): cheap fully concrete runs of many random inputs to discover rarely taken traces;
     # one seed per distinct trace is then followed symbolically
+    by_trace = {}
+    cand_viol = []
+    res["_cand_inputs"] = cand_viol
     if getattr(kernel, "guided_random", None):
         gen, count = kernel.guided_random
         seen_tr = set()
@@ -772,11 +775,61 @@ def guided_paths(kernel, exr, argset, env, setup_fn, opts, mode, W, res):
                 ps_ = cex.run(kernel.name, None, setup=csetup)
             except Exception:
                 continue
+            # the concrete run also gives concrete outputs: inputs on which the IR's own result violates the oracle
+            # are kept as candidate counterexamples (replayed on the real build later)
+            try:
+                for p_ in ps_:
+                    if p_.kind != "RET" or len(cand_viol) >= 5:
+                        continue
+                    cenv = Env(kernel, res.get("consts", {}), "py", None)
+                    couts = {}
+                    oidx = 1
+                    for a in kernel.args:
+                        nb_ = core.bits(a.ctype)
+                        if a.kind in ("val", "ref"):
+                            cenv.a[a.name] = inp[a.name]
+                        else:
+                            cenv.a[a.name] = [inp["%s_%d" % (a.name, i)] for i in range(a.n)] if a.init == "sym" else []
+                        oidx += 1
+                    # outputs: objects were created in argument order starting at id 1
+                    st_m = symex.State()
+                    st_m.mem = p_.mem
+                    oid_ = 1
+                    for a in kernel.args:
+                        if a.kind == "val":
+                            continue
+                        if a.out:
+                            esz = (core.bits(a.ctype) + 7) // 8
+                            vals = []
+                            for i in range(a.n):
+                                v_ = cex.load_conc(st_m, oid_, i * esz, irparse.IntTy(core.bits(a.ctype)))
+                                vv = v_.c if v_.c is not None else 0
+                                vals.append(to_signed(vv, core.bits(a.ctype)) if core.signed(a.ctype) else vv)
+                            couts[a.name] = vals
+                        oid_ += 1
+                    rv = p_.payload
+                    rvc = None
+                    if isinstance(rv, IV) and rv.c is not None and kernel.ret:
+                        rvc = rv.sc if core.signed(kernel.ret) else rv.c
+                    cp_ = ConcPath("RET", None, rvc, couts)
+                    ctx_save = tuple(ex._CTX)
+                    ex.set_ctx("py")
+                    try:
+                        bad_ = [lab for lab, cl in (kernel.claims(cenv, cp_) if kernel.claims else []) if truth(cl) is False]
+                    finally:
+                        ex.set_ctx(*ctx_save)
+                    if bad_:
+                        cand_viol.append(inp)
+            except Exception:
+                pass
             for p_ in ps_:
                 tr = (p_.kind, getattr(p_, "trace", ()))
                 if tr not in seen_tr:
                     seen_tr.add(tr)
                     extra.append(inp)
+                    by_trace[tr[1]] = [inp]
+                elif len(by_trace[tr[1]]) < 400:
+                    by_trace[tr[1]].append(inp)
         res["notes"].append("concrete trace discovery: %d distinct traces" % len(seen_tr))
         seeds = list(seeds) + extra
     seen = {}
@@ -840,6 +893,10 @@ def guided_paths(kernel, exr, argset, env, setup_fn, opts, mode, W, res):
             elif len(seen[sig].seeds) < 6:
                 seen[sig].seeds.append(inputs)
     exr.guide = None
+    # inputs of the concrete discovery phase that follow the same trace serve as further candidate models
+    for p_ in seen.values():
+        more = by_trace.get(getattr(p_, "trace", ()), [])
+        p_.seeds = list(p_.seeds) + more
     res["guided"] = {"seeds": nseed, "distinct_paths": len(seen), "skipped": nskip}
     res["notes"].append("trace-guided exploration: %d seed inputs, %d distinct paths" % (nseed, len(seen)))
     return list(seen.values())
@@ -1068,7 +1125,7 @@ def check_kernel_mode(sb, kernel, view, key, mod, consts, mode, opts, res, known
             continue
         # trace-guided paths carry the concrete seed inputs that produced them: try those as candidate models first
         cand = None
-        for sd_ in (getattr(p, "seeds", None) or []):
+        for sd_ in (getattr(p, "seeds", None) or [])[:400]:
             try:
                 subs_ = subst_list(argset, sd_)
                 if all(truth(eval_closed(f, subs_)) is True for f in facts if not isinstance(f, bool)) and not any(f is False for f in facts):
@@ -1126,6 +1183,16 @@ def check_kernel_mode(sb, kernel, view, key, mod, consts, mode, opts, res, known
             # look for further distinct violations is not needed: one per obligation
         res["obligations"].append(rec)
 
+    # ---- candidate counterexamples found by the concrete discovery phase of trace-guided kernels
+    for inp_ in res.pop("_cand_inputs", []) or []:
+        conf = replay(sb, kernel, view, key, consts, inp_, None, "claim", regions)
+        rec = {"label": "concrete-discovery-candidate", "verdict": "sat", "solver": "concrete-run", "t": 0.0,
+               "inputs": {k_: (hex(x) if abs(x) > 1 << 20 else x) for k_, x in inp_.items()}}
+        rec.update(conf)
+        res["obligations"].append(rec)
+        if conf["replay"] == "confirmed":
+            res["violations"].append(rec)
+            break
     # ---- known findings: confirm each region still fails (KNOWN-FINDING line) -- never counted as discharged
     for kf, region in regions:
         found = None
